@@ -218,7 +218,7 @@ def check_who_releases(chk, tu):
                    'again (use after free / double close)' % (fn, ', '.join('%s(%s) at %s' % r for r in rel)), '%s:release' % fn, rel[0][2])
 
 
-def check_descriptor_sequences(chk, tu):
+def check_descriptor_sequences(chk, tu, rule='R13.6'):
     """R13.6: the descriptor table under call sequences - every sequence of up to 4 (thorough: 5) insert / close operations on a table
     that starts with the standard streams, a preopen and one open file is evaluated with the real table helpers on a concrete table,
     and after every step the invariants of the property are tested through the lookup helper: a number returned by an insertion was
@@ -309,7 +309,7 @@ def check_descriptor_sequences(chk, tu):
                 break
         if bad:
             break
-    chk.expect(not bad, 'R13.6', 'descriptor-sequences',
+    chk.expect(not bad, rule, 'descriptor-sequences',
                '%s - a descriptor number must denote one open descriptor from its insertion to its close and nothing afterwards' % bad,
                'descriptor-table:sequences', detail_ok='%d insert/close sequences of up to %d steps keep every descriptor number unambiguous' % (n_seq, maxlen))
 
